@@ -227,7 +227,13 @@ func runC30(t *testing.T, tape *simrt.Tape, env dst.Env) *simrt.Outcome {
 			storedKey = w.freshKey()
 			d := &session.Data{DC: storedDC, AuthKey: append([]byte(nil), storedKey.Value[:]...), AuthKeyID: append([]byte(nil), storedKey.ID[:]...), Salt: 77}
 			if stored == 3 {
-				switch tape.Choose(simrt.Fault, 4) {
+				switch tape.Choose(simrt.Fault, 6) {
+				case 4:
+					d.AuthKey = make([]byte, 256)
+					corruptWhat = "key bytes wiped (all zero), key id kept"
+				case 5:
+					d.AuthKeyID = make([]byte, 8)
+					corruptWhat = "key id wiped (all zero), key kept"
 				case 0:
 					d.AuthKey[tape.Choose(simrt.Fault, 256)] ^= 1 << tape.Choose(simrt.Fault, 8)
 					corruptWhat = "bit flip in the key"
